@@ -61,7 +61,7 @@ func rewrite(src []byte, augs []Augmentation) ([]byte, []PosAdjustment) {
 	//
 	// Sort all augs by Start offset to retain the above ordering while ensuring
 	// that augmentations get written to the `dst` Buffer in order.
-	sort.Slice(augs, func(i, j int) bool { return augs[i].Start() < augs[j].Start() })
+	sort.SliceStable(augs, func(i, j int) bool { return augs[i].Start() < augs[j].Start() })
 	for _, aug := range augs {
 		start, end := aug.Start(), aug.End()
 		dst.Write(src[pos:start])
